@@ -28,7 +28,7 @@ PROPERTIES = ['ActFinalKept']
 DEVS       = {'DevFinalFilterFirst': 'InvKilledNotNamed', 'DevNoPmgrCheck': 'InvKilledNotNamed',
               'DevStopAtUnknown': 'InvNamedKilled', 'DevNoRecheckAtLaunch': 'InvNamedKilled',
               'DevRegisterAfterSubmit': 'InvFinalReported',
-              'DevReportForMate': 'InvRightPilot'}
+              'DevReportForMate': 'InvRightPilot', 'DevTerminateAlways': 'InvKilledNotNamed'}
 # deviations of the code's shape which do not break the property on their own (the kill is enacted a
 # moment later; C14 states no immediacy): the model has to stay correct with them
 EQUIV      = ['DevLaunchOutsideLock']
@@ -89,7 +89,10 @@ def script_from_behaviour(path, rng):
                 later.append(step)
                 step = None
         elif act == 'Deliver'  : step = ['deliver']
-        elif act == 'Close'    : step = ['close']
+        elif act == 'Close'    : step = rng.choice([['close'], ['pclose', True], ['sclose', True, 'kwarg'],
+                                                    ['sclose', None, 'exit'], ['sclose', True, 'option']])
+        elif act == 'CloseKeep': step = rng.choice([['pclose', False], ['sclose', False, 'kwarg'],
+                                                    ['sclose', False, 'option']])
         elif act in ('ReqKill', 'ReqCancel'):
             api  = 'kill' if act == 'ReqKill' else 'cancel'
             form = 'list'
@@ -147,6 +150,12 @@ def requests(pids):
     yield ['raw', [K.GHOST], True, 'str']
     yield ['raw', [], False, 'list']
     yield ['close']
+    yield ['pclose', True]
+    yield ['pclose', False]
+    yield ['sclose', True, 'kwarg']
+    yield ['sclose', False, 'kwarg']
+    yield ['sclose', False, 'option']
+    yield ['sclose', None, 'exit']
 
 
 def small_scope(rng, sample3):
@@ -276,6 +285,14 @@ def classify(trace, clause=''):
                         'from inside the submission' if e['during'] == 'submit' else 'after the submission',
                         kind[x], bulk.get(x, 1))
             cs = now
+    for e in evs:
+        # a close which sends what it must not (terminate=False) / not what it has to (terminate)
+        if e['ev'] == 'Request' and e['api'] in ('pclose', 'sclose'):
+            told = [m for m in e['msgs'] if m['fwd'] or (m['cmd'] == 'kill_pilots' and m['own'])]
+            if (not e['terminate'] and told and 'KilledNotNamed' in clause) or \
+               (e['terminate'] and not told and 'NamedNotKilled' in clause):
+                return '%s.close(terminate=%s)' % ('Session' if e['api'] == 'sclose' else 'PilotManager',
+                                                   e['terminate'])
     if 'NamedNotKilled' in clause:
         jc, lostp = set(), None
         for e in evs:
@@ -328,6 +345,9 @@ def classify(trace, clause=''):
                 return _describe('kill message of another pilot manager', e['uids'], _views(post, pids), pids)
             if e['api'] == 'close':
                 return 'close()'
+            if e['api'] in ('pclose', 'sclose'):
+                return '%s.close(terminate=%s)' % ('Session' if e['api'] == 'sclose' else 'PilotManager',
+                                                   e['terminate'])
             return _describe({'raw': 'kill', 'kill': 'kill', 'cancel': 'cancel'}[e['api']] + ' request',
                              e['uids'], _views(post, pids), pids)
         post = e['post']
